@@ -25,6 +25,7 @@ pub fn generate(prop: &str, _run: u64, t: &mut Tape) -> Scenario {
             p.w_loop = 2;
             gen::gen_pipe(t, p)
         }
+        "C04" if _run % 10 == 4 => gen2::gen_iter_heavy(t),
         "C04" => {
             let mut p = Profile::pipe();
             if _run % 10 == 9 {
@@ -41,6 +42,7 @@ pub fn generate(prop: &str, _run: u64, t: &mut Tape) -> Scenario {
         // specialised families
         "C01" => match _run % 8 {
             4 if _run % 16 == 4 => gen2::gen_state_skew(t),
+            4 if _run % 32 == 12 => gen2::gen_iter_heavy(t),
             4 => gen2::gen_loopfam(t, gen2::LoopOpts { side: true, nested: true }),
             5 => gen3::gen_join_opts(t, _run % 16 == 5),
             6 => gen3::gen_fan(t),
